@@ -9,21 +9,66 @@ import MayVerif.Proof.Io.W4
 import MayVerif.Proof.Io.U4
 namespace MayVerif.Io
 
+/-- which code the model is of never changes -/
+theorem cfg_step (st st' : St) (a : Actor) (e : Env) (hs : step st a e = some st') :
+    st'.fixFlag = st.fixFlag ∧ st'.fixDis = st.fixDis ∧ st'.regFirst = st.regFirst ∧ st'.fixOwn = st.fixOwn ∧ st'.skipSys = st.skipSys := by
+  cases a with
+  | u c =>
+    simp only [step] at hs
+    generalize st.upc c = pc at hs
+    cases pc <;> cases e <;> simp only [ustep, resumeU, finish, disarm] at hs <;> (repeat' (split at hs)) <;>
+      first | contradiction | (simp only [Option.some.injEq] at hs; subst hs; exact ⟨rfl, rfl, rfl, rfl, rfl⟩)
+  | k i =>
+    simp only [step] at hs
+    generalize st.kpc i = pc at hs
+    cases pc <;> simp only [kstep, resumeU, finish, disarm, schedule, xtakeStep] at hs <;> (repeat' (split at hs)) <;>
+      first | contradiction | (simp only [Option.some.injEq] at hs; subst hs; exact ⟨rfl, rfl, rfl, rfl, rfl⟩)
+  | w i =>
+    simp only [step] at hs
+    generalize st.wpc i = pc at hs
+    cases pc <;> cases e <;> simp only [wstep, resumeU, finish, disarm, schedule, xtakeStep] at hs <;> (repeat' (split at hs)) <;>
+      first | contradiction | (simp only [Option.some.injEq] at hs; subst hs; exact ⟨rfl, rfl, rfl, rfl, rfl⟩)
+  | env =>
+    simp only [step] at hs
+    cases e <;> simp only [estep] at hs <;> (repeat' (split at hs)) <;> first | contradiction | (simp only [Option.some.injEq] at hs; subst hs; exact ⟨rfl, rfl, rfl, rfl, rfl⟩)
+
+theorem cfg_run (st : St) (sched : List (Actor × Env)) :
+    (run st sched).fixFlag = st.fixFlag ∧ (run st sched).fixDis = st.fixDis ∧ (run st sched).regFirst = st.regFirst ∧
+    (run st sched).fixOwn = st.fixOwn ∧ (run st sched).skipSys = st.skipSys := by
+  induction sched generalizing st with
+  | nil => exact ⟨rfl, rfl, rfl, rfl, rfl⟩
+  | cons ae r ih =>
+    obtain ⟨a, e⟩ := ae
+    simp only [run]
+    split
+    · next st' hs =>
+      have h1 := cfg_step _ _ _ _ hs
+      have h2 := ih st'
+      exact ⟨h2.1.trans h1.1, h2.2.1.trans h1.2.1, h2.2.2.1.trans h1.2.2.1, h2.2.2.2.1.trans h1.2.2.2.1, h2.2.2.2.2.trans h1.2.2.2.2⟩
+    · exact ih st
+
+theorem Cfg.step {st st' : St} {a : Actor} {e : Env} (hc : Cfg st) (hs : step st a e = some st') : Cfg st' := by
+  have h := cfg_step _ _ _ _ hs
+  exact ⟨h.1.trans hc.hF, h.2.1.trans hc.hD, h.2.2.1.trans hc.hR, h.2.2.2.1.trans hc.hO, h.2.2.2.2.trans hc.hS⟩
+
 structure Inv (st : St) : Prop where
+  c : Cfg st
   i1 : Inv1 st
   i2 : Inv2 st
   i4 : Inv4 st
 
-theorem inv_initCfg (ff fd : Bool) (co : Co → Bool) : Inv (initCfg ff fd co) := ⟨inv1_init ff fd co, inv2_init ff fd co, inv4_init ff fd co⟩
-theorem inv_init (co : Co → Bool) : Inv (init co) := inv_initCfg true true co
+theorem inv_init (co : Co → Bool) : Inv (init co) := ⟨cfg_init co, inv1_init co, inv2_init co, inv4_init co⟩
 
 theorem inv_step (st st' : St) (a : Actor) (e : Env) (h : Inv st) (hs : step st a e = some st') : Inv st' := by
-  obtain ⟨h1, h2, h4⟩ := h
+  obtain ⟨hc, h1, h2, h4⟩ := h
+  have hc' := hc.step hs
   cases a with
-  | u c => exact ⟨inv1_ustep st st' c _ e h1 rfl hs, inv2_ustep st st' c _ e h1 h2 rfl hs, inv4_ustep st st' c _ e h1 h4 rfl hs⟩
-  | k i => exact ⟨inv1_kstep st st' i _ e h1 rfl hs, inv2_kstep st st' i _ e h1 h2 rfl hs, inv4_kstep st st' i _ e h1 h4 rfl hs⟩
-  | w i => exact ⟨inv1_wstep st st' i _ e h1 rfl hs, inv2_wstep st st' i _ e h1 h2 rfl hs, inv4_wstep st st' i _ e h1 h4 rfl hs⟩
-  | env => exact ⟨inv1_estep st st' e h1 hs, inv2_estep st st' e h2 hs, inv4_estep st st' e h4 hs⟩
+  | u c => exact ⟨hc', inv1_ustep st st' c _ e hc h1 rfl hs, inv2_ustep st st' c _ e hc h1 h2 rfl hs, inv4_ustep st st' c _ e hc h1 h4 rfl hs⟩
+  | k i => exact ⟨hc', inv1_kstep st st' i _ e hc h1 rfl hs, inv2_kstep st st' i _ e hc h1 h2 rfl hs, inv4_kstep st st' i _ e hc h1 h4 rfl hs⟩
+  | w i => exact ⟨hc', inv1_wstep st st' i _ e hc h1 rfl hs, inv2_wstep st st' i _ e hc h1 h2 rfl hs, inv4_wstep st st' i _ e hc h1 h4 rfl hs⟩
+  | env =>
+    have he : estep st e = some st' := hs
+    exact ⟨hc', inv1_estep st st' e h1 he, inv2_estep st st' e h2 he, inv4_estep st st' e h4 he⟩
 
 theorem inv_run (st : St) (sched : List (Actor × Env)) (h : Inv st) : Inv (run st sched) := by
   induction sched generalizing st with
